@@ -24,6 +24,7 @@ RULE = ("honest signatures over d, k in {1, 2, n-2, n-1, n//2, n//2+1, leading-z
         "{0, n, n+1}, malformed encodings, over-long digests, the full product of small (r, s, e) on toy curves, a few lines on the "
         "cofactor-4 curve SECP112r2.  Search: EXHAUSTIVE over all d, k in [1, n-1] and e in [0, n-1] on toy prime-order curves "
         "(both generator classes), structured on the 16 cofactor-1 named curves.")
+RULE = RULE + E.COUNT_RULE
 ASSUMPTIONS = ["cofactor-1 curves only (16 of the 17 named curves, toy curves of prime order)",
                "the nonce point has x(kG) < n (otherwise the property claims nothing; such nonces exist on the toy curves with n < p "
                "and are counted in the class histogram)",
@@ -288,6 +289,7 @@ def all_cases(ctx):
 
 
 def correspond(ctx):
+    E.note_budget(ctx)
     rng = ctx.rng
     c = {k: ParCorr(ctx, k) for k in ("recover", "recover_digest", "recover_data")}
     honest, forged = all_cases(ctx)
@@ -376,4 +378,4 @@ def search(ctx):
 
 
 def replay(rec):
-    return run_case(rec["input"]) is not None
+    return E.replay_record(rec, run_case, lambda c: c.get("kind") in ("recover", "recover_digest", "recover_data") and "curve" in c)
